@@ -51,7 +51,7 @@ def make_rod(rs, q0=None, u0=None, name="rod"):
 
     Rod = make_CosseratRod(interpolation=rs["interp"], mixed=rs["mixed"], constraints=rs["constraints"],
                            polynomial_degree=rs["degree"])
-    A0 = gen._exp(np.array(rs["psi0"], dtype=float))
+    A0 = np.array(rs["A0"], dtype=float) if "A0" in rs else gen._exp(np.array(rs["psi0"], dtype=float))
     r0 = np.array(rs["r0"], dtype=float)
     nel = rs["nel"]
     if rs["ref"] == "straight":
